@@ -186,6 +186,56 @@ def rule_immutable_description(ctx: Ctx, out: Collector) -> None:
                     f'shared by every run')
 
 
+def _rule_memo_key(ctx: Ctx, out: Collector, mgr, m, dec: ast.Call) -> None:
+    """SH-12: the key of a memoised method tells apart any two calls that differ in an argument - decided by evaluating the key
+    function of the decorator on argument vectors that differ in exactly one position (a sub-dag, a node id)."""
+    from ..absint import AObj, Interp, Oracle, TOP, enumerate_outcomes
+    p = ctx.p
+    keyfn = next((k.value for k in dec.keywords if k.arg == 'key'), None)
+    cons = f'{m.module.name}::{m.qualname}::the memo key tells apart calls that differ in an argument [memo key]'
+    if keyfn is None:
+        out.ok('SH-12', cons, p.loc(m, dec), 'default key: every argument is part of it')
+        return
+    params = m.params()[1:]
+    env = FuncEnv.of(p, m)
+
+    def value(pn: str, variant: int):
+        t_ = env.name_type(pn)
+        if t_[0] == 'class':
+            return AObj(t_[1], {'nodes': [f'n{variant}'], 'source': 'I', 'dest': f'd{variant}'}, tag=f'{pn}#{variant}')
+        return f'{pn}-{variant}'
+
+    def run(oracle: Oracle):
+        it = Interp(p, oracle, ext_stubs={'cachetools.keys.hashkey': lambda a, k: tuple(a) + tuple(sorted(k.items())),
+                                          'cachetools.keys.methodkey': lambda a, k: tuple(a[1:]) + tuple(sorted(k.items()))})
+        fn = it.eval(keyfn, {'__module__': m.module, '__unit__': None, '__closure__': None})
+        me = AObj(mgr, {}, tag='manager')
+        base = [value(pn, 0) for pn in params]
+        k0 = it.call(fn, [me] + base, {}, keyfn)
+        same = []
+        for i, pn in enumerate(params):
+            other = list(base)
+            other[i] = value(pn, 1)
+            k1 = it.call(fn, [me] + other, {}, keyfn)
+            if k0 is TOP or k1 is TOP:
+                raise AnalysisError(f'the memo key of {m.qualname} is not decided')
+            if k0 == k1:
+                same.append(pn)
+        return same
+    problems = set()
+    for o in enumerate_outcomes(run):
+        if o[0] != 'value':
+            raise AnalysisError(f'SH-12: evaluating the memo key of {m.qualname} raises {o[1]}')
+        problems |= set(o[1])
+    if not problems:
+        out.ok('SH-12', cons, p.loc(m, dec), f'changing any of {params} changes the key')
+    else:
+        out.bad('SH-12', cons, p.loc(m, dec), f'two calls of {m.name} that differ only in {sorted(problems)} get the same memo key: the '
+                f'first answer of the run is handed out for the other call too - the dependencies of a node computed for one sub-dag '
+                f'(an inner recurrent subgraph) are reused for another (the outer one), so the node stops waiting for an input that '
+                f'only the other sub-dag re-executes and runs on the value of a superseded iteration', props={'C03', 'C11'})
+
+
 def rule_memoisation(ctx: Ctx, out: Collector) -> None:
     """SH-5: memoisation on the run path stores into an object owned by the run."""
     p = ctx.p
@@ -243,6 +293,7 @@ def rule_memoisation(ctx: Ctx, out: Collector) -> None:
                                 ok, field_name = True, next(iter(names_))
                         except Exception:
                             pass
+                    _rule_memo_key(ctx, out, mgr, m, dec)
                     if ok:
                         out.ok('SH-5', cons, p.loc(m, dec), f'cache lives in the per-run field {field_name}')
                     else:
